@@ -344,7 +344,9 @@ fn scripted(tr: &mut Tracer, gen: &mut MoveGenerator, start: Board, moves: &[&st
     }
 }
 
-pub const SCRIPTS: [(&str, &str, &str); 8] = [
+pub const SCRIPTS: [(&str, &str, &str); 10] = [
+    ("rook-takes-rook-then-recurrence", "r3k2r/8/8/8/8/8/8/R3K2R b KQkq -", "h8g8 a1a8 e8e7 a8a7 e7e8 a7a8 e8e7 a8a7 e7e8 a7a8"),
+    ("rook-takes-rook-then-recurrence-black", "r3k2r/8/8/8/8/8/8/R3K2R w KQkq -", "h1g1 a8a1 e1e2 a1a2 e2e1 a2a1 e1e2 a1a2 e2e1 a2a1"),
     ("knight-shuffle-threefold", "rnbqkbnr/pppppppp/8/8/8/8/PPPPPPPP/RNBQKBNR w KQkq -", "g1f3 g8f6 f3g1 f6g8 g1f3 g8f6 f3g1 f6g8"),
     ("triangulation-other-side", "4k3/8/8/8/8/8/8/4K3 w - -", "e1d1 e8d8 d1d2 d8e8 d2e1 e8d8 e1d1 d8e8 d1d2 e8d8 d2e1"),
     ("rook-excursion-loses-right", "4k3/8/8/8/8/8/8/4K2R w K -", "h1g1 e8d8 g1h1 d8e8 h1g1 e8d8 g1h1 d8e8"),
